@@ -7,6 +7,7 @@
 package c17
 
 import (
+	"context"
 	"database/sql"
 	"fmt"
 	"os"
@@ -648,6 +649,87 @@ func drawLateFile(t *rapid.T) *Case {
 	return c
 }
 
+// ---------------------------------------------------------------- a query given up by its caller, then Close
+
+// CancelCase: a query that takes about a second is started with a context
+// that expires after a few milliseconds; whatever the call returns (a context
+// error or the rows), the handle is closed right afterwards and the process
+// lives on for two seconds.  Nothing may crash (an abandoned query must not
+// outlive the index it reads), and the file must be released.
+type CancelCase struct {
+	Opts      string
+	TimeoutMS int
+	Rows      int
+}
+
+func (c *CancelCase) Summary() string {
+	return fmt.Sprintf("cancel: %d rows, dsn options %q, three-column group-by under a %d ms deadline, then Close at once", c.Rows, c.Opts, c.TimeoutMS)
+}
+
+func cancelOracle(c *CancelCase) error {
+	dir := fix.CaseDir()
+	defer os.RemoveAll(dir)
+	spec := gen.DataSpec{Recipe: &gen.Recipe{N: c.Rows, Cols: []gen.ColSpec{
+		{Name: "a", Kind: gen.KMod, K: 53, Prefix: "v"}, {Name: "b", Kind: gen.KMod, K: 41}, {Name: "c", Kind: gen.KMod, K: 29, Prefix: "w"}}}}
+	path, _, err := fix.Build(dir, spec.Rows(), fix.WMemFile)
+	if err != nil {
+		return fmt.Errorf("INFRA: %v", err)
+	}
+	dsn := "file:" + path
+	if c.Opts != "" {
+		dsn += "?" + c.Opts
+	}
+	db, err := sql.Open("updog", dsn)
+	if err != nil {
+		return err
+	}
+	ctx, cancel := context.WithTimeout(context.Background(), time.Duration(c.TimeoutMS)*time.Millisecond)
+	qerr := fix.Safe(func() error {
+		rows, err := db.QueryContext(ctx, `^a = "none" ; a, b, c`)
+		if err != nil {
+			return err
+		}
+		n := 0
+		for rows.Next() {
+			n++
+		}
+		rows.Close()
+		if rows.Err() == nil && n != 53*41*29 && c.Rows >= 53*41*29 {
+			return fmt.Errorf("query under a deadline returned %d rows without an error, %d groups exist", n, 53*41*29)
+		}
+		return nil
+	})
+	cancel()
+	if fix.IsPanic(qerr) {
+		return qerr
+	}
+	if qerr != nil && strings.Contains(qerr.Error(), "groups exist") {
+		return qerr
+	}
+	cerr := fix.Safe(db.Close)
+	if fix.IsPanic(cerr) {
+		return cerr
+	}
+	time.Sleep(2 * time.Second) // a query left running would still be at it
+	if err := released(path); err != nil {
+		return fmt.Errorf("after a query given up by its caller and Close: %v", err)
+	}
+	return nil
+}
+
+func runCancel(t interface{ Fatalf(string, ...any) }, c *CancelCase) {
+	evid.Inflight(prop, "cancel", c, c.Summary())
+	err := cancelOracle(c)
+	evid.ClearInflight(prop, "cancel")
+	if err != nil && strings.HasPrefix(err.Error(), "INFRA:") {
+		panic(err.Error())
+	}
+	evid.Case(true, c.Summary(), "query-given-up-then-close")
+	if err != nil {
+		fix.Fail(t, prop, "cancel", c, c.Summary(), err)
+	}
+}
+
 // ---------------------------------------------------------------- connection churn
 
 // ChurnCase: one file, one option string, handles whose pools keep no idle
@@ -790,6 +872,13 @@ func drawChurn(t *rapid.T) *ChurnCase {
 }
 
 func replay(cf *evid.CaseFile) error {
+	if cf.Sub == "cancel" {
+		var c CancelCase
+		if err := evid.Decode(cf.Gob, &c); err != nil {
+			return err
+		}
+		return cancelOracle(&c)
+	}
 	if cf.Sub == "churn" {
 		var c ChurnCase
 		if err := evid.Decode(cf.Gob, &c); err != nil {
@@ -815,6 +904,7 @@ func replay(cf *evid.CaseFile) error {
 func TestQuick(t *testing.T) {
 	fix.Pinned(t, prop, replay)
 	fix.Check(t, "history", 150, func(rt *rapid.T) { run(rt, drawCase(rt, 15)) })
+	runCancel(t, &CancelCase{Opts: "preload=true", TimeoutMS: 20, Rows: 100000})
 	fix.Check(t, "late-file", 24, func(rt *rapid.T) { run(rt, drawLateFile(rt)) })
 	fix.Check(t, "reincarnation", 40, func(rt *rapid.T) { run(rt, drawReincarnation(rt)) })
 	fix.Check(t, "churn", 12, func(rt *rapid.T) { runChurn(rt, drawChurn(rt)) })
@@ -825,6 +915,9 @@ func TestThorough(t *testing.T) {
 		fix.Pinned(t, prop, replay)
 	}
 	fix.Check(t, "history", 1500, func(rt *rapid.T) { run(rt, drawCase(rt, 40)) })
+	if shard, _ := evid.Shard(); shard < 4 {
+		runCancel(t, &CancelCase{Opts: optStrings[shard], TimeoutMS: 5 + 10*shard, Rows: 100000})
+	}
 	fix.Check(t, "late-file", 200, func(rt *rapid.T) { run(rt, drawLateFile(rt)) })
 	fix.Check(t, "reincarnation", 300, func(rt *rapid.T) { run(rt, drawReincarnation(rt)) })
 	fix.Check(t, "churn", 80, func(rt *rapid.T) { runChurn(rt, drawChurn(rt)) })
